@@ -1,5 +1,6 @@
 SPECIFICATION TSpec
 CONSTANT MaxDepth = 8
+CONSTANT RaiseKinds = {0, 1, 2, 3}
 CONSTANT MaxLen = 1000
 INVARIANT Inv_Drift
 INVARIANT Accepted
